@@ -5,7 +5,7 @@ MAXW = (1 << 64) - 1
 
 class Case:
     def __init__(self, cid, kind, vals=None, start=0, stop=0, script=None, hint="inexact", adapt="none",
-                 threads=None, owner="drop", sched=None, frozen=None, iters=1, mode="release", clonepanic=None, droppanic=None, zst=False, tags=None):
+                 threads=None, owner="drop", sched=None, frozen=None, iters=1, mode="release", clonepanic=None, droppanic=None, zst=False, tags=None, pod=False, spare=0):
         self.id = cid
         self.kind = kind            # slice vecref arrref vec array range iter iterref
         self.vals = list(vals or [])
@@ -22,6 +22,8 @@ class Case:
         self.clonepanic = clonepanic
         self.droppanic = droppanic      # the k-th recorded destruction of an element panics
         self.zst = zst                  # zero-sized elements (slice / vec / array; payloads all 0)
+        self.pod = pod                  # `Copy` elements without drop glue (vec / array): no destruction is observable
+        self.spare = spare              # unused capacity of the consumed vector (vec)
         self.tags = set(tags or [])
 
     # ---- source facts -------------------------------------------------------------------------
@@ -107,6 +109,10 @@ class Case:
         L.append(src)
         if self.zst:
             L.append("zst")
+        if self.pod:
+            L.append("pod")
+        if self.spare:
+            L.append("spare %d" % self.spare)
         if self.adapt != "none":
             L.append("adapt %s" % self.adapt)
         L.append("mode %s" % self.mode)
@@ -169,6 +175,10 @@ def parse_cases(text):
             cur.droppanic = int(toks[1])
         elif toks[0] == "zst":
             cur.zst = True
+        elif toks[0] == "pod":
+            cur.pod = True
+        elif toks[0] == "spare":
+            cur.spare = int(toks[1])
         elif toks[0] == "thread":
             head, _, prog = line.partition(":")
             t = int(head.split()[1])
